@@ -195,10 +195,12 @@ func (wtr *JSONWtr) ident(p *node.Path) string {
 	var qualify bool
 	s := p.Meta.(meta.Identifiable).Ident()
 	thisMod := meta.OriginalModule(p.Meta)
+	thisMod = meta.BelongsToModule(thisMod)
 	if p.Len() == 2 { // top-level
 		qualify = true
 	} else {
 		parentMod := meta.OriginalModule(p.Parent.Meta)
+		parentMod = meta.BelongsToModule(parentMod)
 		qualify = (parentMod != thisMod)
 	}
 	if qualify && wtr.QualifyNamespace {
